@@ -220,6 +220,8 @@ struct World {
     puts: HashMap<u64, Vec<u64>>,
     last_event: HashMap<u64, Ev>,
     taint: HashSet<u64>,
+    /// keys whose record file is what a failed write left behind (until a later write / delete of the key completes)
+    disk_taint: HashSet<u64>,
     /// no eviction, refusal, removal in flight or crash so far: the settled state is schedule independent
     clean: bool,
     /// every put so far happened with no write/notification in flight, and no crash
@@ -267,6 +269,62 @@ fn new_lane_rt() -> tokio::runtime::Runtime {
         .event_interval(1)
         .build()
         .expect("runtime")
+}
+
+/// A disk fault placed on ONE spawned write task (the process is single-threaded while a lane runs).
+/// `Open`: RLIMIT_NOFILE = 0 while the task runs — `fs::write`'s open fails (EMFILE) before it creates or truncates
+/// anything (a node out of file descriptors). `Full(b)`: RLIMIT_FSIZE = b with SIGXFSZ ignored — the open truncates
+/// the file, the first b bytes are written, the rest fails with EFBIG (a full disk / quota).
+#[derive(Clone, Copy, Debug, PartialEq)]
+enum Fault {
+    Open,
+    Full(u64),
+}
+
+struct FaultGuard {
+    fault: Option<Fault>,
+    old: libc::rlimit,
+    old_sig: libc::sighandler_t,
+}
+impl FaultGuard {
+    fn set(fault: Option<Fault>) -> FaultGuard {
+        let mut g = FaultGuard { fault, old: libc::rlimit { rlim_cur: 0, rlim_max: 0 }, old_sig: libc::SIG_DFL };
+        // SAFETY: plain libc calls on this process's own limits
+        unsafe {
+            match fault {
+                None => {}
+                Some(Fault::Open) => {
+                    libc::getrlimit(libc::RLIMIT_NOFILE, &mut g.old);
+                    let lim = libc::rlimit { rlim_cur: 0, rlim_max: g.old.rlim_max };
+                    libc::setrlimit(libc::RLIMIT_NOFILE, &lim);
+                }
+                Some(Fault::Full(b)) => {
+                    g.old_sig = libc::signal(libc::SIGXFSZ, libc::SIG_IGN);
+                    libc::getrlimit(libc::RLIMIT_FSIZE, &mut g.old);
+                    let lim = libc::rlimit { rlim_cur: b as libc::rlim_t, rlim_max: g.old.rlim_max };
+                    libc::setrlimit(libc::RLIMIT_FSIZE, &lim);
+                }
+            }
+        }
+        g
+    }
+}
+impl Drop for FaultGuard {
+    fn drop(&mut self) {
+        unsafe {
+            match self.fault {
+                None => {}
+                Some(Fault::Open) => {
+                    libc::setrlimit(libc::RLIMIT_NOFILE, &self.old);
+                }
+                Some(Fault::Full(_)) => {
+                    libc::setrlimit(libc::RLIMIT_FSIZE, &self.old);
+                    // the `start … interrupt` child relies on the default action (ignored signals survive exec)
+                    libc::signal(libc::SIGXFSZ, self.old_sig);
+                }
+            }
+        }
+    }
 }
 
 fn u256_to_big(u: U256) -> BigUint {
@@ -325,6 +383,7 @@ impl World {
             puts: HashMap::new(),
             last_event: HashMap::new(),
             taint: HashSet::new(),
+            disk_taint: HashSet::new(),
             clean: true,
             disciplined: true,
             crashed: false,
@@ -606,8 +665,16 @@ impl World {
 
     /// run the first task of lane `li` (and the sender task a write spawns); returns the commands that arrived
     fn step_lane(&mut self, li: usize) -> Vec<LocalSwarmCmd> {
+        self.step_lane_fault(li, None)
+    }
+
+    /// the same, with a disk fault in force while the task itself runs (not while its command sender runs)
+    fn step_lane_fault(&mut self, li: usize, fault: Option<Fault>) -> Vec<LocalSwarmCmd> {
         let lane = &mut self.lanes[li];
-        lane.rt.block_on(tokio::task::yield_now());
+        {
+            let _fault = FaultGuard::set(fault);
+            lane.rt.block_on(tokio::task::yield_now());
+        }
         let (_id, kind) = lane.tasks.pop_front().expect("task");
         if let TKind::Flush { n } = kind {
             self.hist_file = Some(n);
@@ -748,7 +815,7 @@ impl World {
 
     fn exec(&mut self, line: &str) -> String {
         let ws: Vec<&str> = line.split_whitespace().collect();
-        if self.defer && !matches!(ws.first().copied(), Some("run" | "put" | "cput" | "key" | "len" | "kadput")) {
+        if self.defer && !matches!(ws.first().copied(), Some("run" | "runany" | "runfail" | "put" | "cput" | "key" | "len" | "kadput")) {
             self.pump();
         }
         let knows = |w: &World, k: &str| -> Option<u64> { k.parse::<u64>().ok().filter(|k| w.keys.contains_key(k)) };
@@ -900,45 +967,56 @@ impl World {
             }
             ["run", id] => {
                 let Ok(id) = id.parse::<u64>() else { return "bad-op".into() };
-                let Some((li, pos)) = self.find_task(id) else { return "no-task".into() };
-                let kind = self.lanes[li].tasks[pos].1.clone();
-                if !self.legal_run(id, &kind) {
-                    return "illegal-choice".into();
+                self.run_task(id, None, false)
+            }
+            // replay / fault ops
+            ["runfail", id, "open"] => {
+                let Ok(id) = id.parse::<u64>() else { return "bad-op".into() };
+                self.run_task(id, Some(Fault::Open), false)
+            }
+            ["runfail", id, "full", b] => {
+                let (Ok(id), Ok(b)) = (id.parse::<u64>(), b.parse::<u64>()) else { return "bad-op".into() };
+                self.run_task(id, Some(Fault::Full(b)), false)
+            }
+            // replay only: the task runs although an older task of the same key is still pending (the order the
+            // per-key-FIFO legality excludes; tokio gives no such guarantee)
+            ["runany", id] => {
+                let Ok(id) = id.parse::<u64>() else { return "bad-op".into() };
+                self.run_task(id, None, true)
+            }
+            // replay only: the puts are made back to back from ONE task running on a tokio multi-thread worker (as
+            // `SwarmDriver::run` handles commands), and the runtime then runs what they spawned in its own order
+            ["lifo", rest @ ..] if !rest.is_empty() && rest.len() % 3 == 0 => self.lifo(rest),
+            // replay-only probes of start-up scan branches OUTSIDE the model (assumption "no foreign files in the store
+            // directory"): `sub` moves k's record file into a subdirectory (the scan walks recursively and indexes it, `get`
+            // reads only the top level), `upper` adds a copy of k's file under the upper-case hex name (hex::decode takes
+            // both spellings: two files for one key). The model answers `ok` and does not follow.
+            ["foreign", kind @ ("sub" | "upper"), k] => {
+                let Some(k) = knows(self, k) else { return "bad-op".into() };
+                let name = rs::generate_filename(&self.keys[&k].0);
+                let path = self.storage.join(&name);
+                let Ok(bytes) = std::fs::read(&path) else { return "no-file".into() };
+                self.taint.insert(k);
+                self.disk_taint.insert(k);
+                self.clean = false;
+                if *kind == "sub" {
+                    let dir = self.storage.join("sub");
+                    let _ = std::fs::create_dir_all(&dir);
+                    let _ = std::fs::write(dir.join(&name), &bytes);
+                    let _ = std::fs::remove_file(&path);
+                } else {
+                    let _ = std::fs::write(self.storage.join(name.to_uppercase()), &bytes);
                 }
-                if pos != 0 || self.lanes[li].frozen {
-                    return "unsupported-schedule".into();
+                "ok".into()
+            }
+            ["flen", k] => {
+                let Some(k) = knows(self, k) else { return "bad-op".into() };
+                let path = self.storage.join(rs::generate_filename(&self.keys[&k].0));
+                match std::fs::metadata(&path) {
+                    Ok(m) if m.is_file() => m.len().to_string(),
+                    Ok(_) => "not-a-file".into(),
+                    Err(_) => "absent".into(),
                 }
-                let queued_before = self.cmd_tx.max_capacity() - self.cmd_tx.capacity();
-                let cmds = self.step_lane(li);
-                let mut out = "ran".to_string();
-                if self.defer {
-                    // the notification is either on the channel now or waits (in its sender task) for room
-                    let queued = self.cmd_tx.max_capacity() - self.cmd_tx.capacity();
-                    let blocked_now = self.lanes.iter().filter(|l| l.rt.metrics().num_alive_tasks() > l.tasks.len()).count();
-                    if let TKind::Write { k, .. } = kind {
-                        if queued > queued_before || blocked_now > self.blocked_senders {
-                            out.push_str(" add");
-                            self.awaiting.push_back((id, k));
-                        }
-                    }
-                    self.blocked_senders = blocked_now;
-                }
-                for c in cmds {
-                    match &c {
-                        LocalSwarmCmd::AddLocalRecordAsStored { key, .. } => {
-                            out.push_str(" add");
-                            let k = self.key_ids.get(key.as_ref()).copied().unwrap_or(u64::MAX);
-                            self.notes.push((id, k, c));
-                        }
-                        LocalSwarmCmd::RemoveFailedLocalRecord { key } => {
-                            out.push_str(" fail");
-                            let k = self.key_ids.get(key.as_ref()).copied().unwrap_or(u64::MAX);
-                            self.notes.push((id, k, c));
-                        }
-                        other => out.push_str(&format!(" ?{other:?}")),
-                    }
-                }
-                out
             }
             ["deliver", id] => {
                 let Ok(id) = id.parse::<u64>() else { return "bad-op".into() };
@@ -948,6 +1026,15 @@ impl World {
                     return "illegal-choice".into();
                 }
                 let (_, _, cmd) = self.notes.remove(pos);
+                let failed = matches!(cmd, LocalSwarmCmd::RemoveFailedLocalRecord { .. });
+                if failed {
+                    // the handler removes the key: a removal like any other for the oracles
+                    if self.inflight(k) {
+                        self.taint.insert(k);
+                    }
+                    self.last_event.insert(k, Ev::Removed);
+                    self.clean = false;
+                }
                 let rt_lane = new_lane_rt();
                 let mut kinds = vec![];
                 if self.use_cmd {
@@ -974,6 +1061,15 @@ impl World {
                             kinds.push(TKind::Delete { k });
                         }
                         _ => {}
+                    }
+                }
+                if failed && self.keys.contains_key(&k) {
+                    // C01: once the failure of a write is handled the key is neither listed nor readable (index and cache
+                    // entry gone; the file goes with the spawned delete)
+                    let got = self.get_str(k);
+                    let listed = rs::contains(self.st(), &self.keys[&k].0);
+                    if listed || got != "none" {
+                        self.fail("failed-write-removes-key", format!("RemoveFailedLocalRecord for key {k} was handled, but listed = {listed}, get = {got}"));
                     }
                 }
                 if !self.push_lane(rt_lane, kinds) {
@@ -1217,6 +1313,187 @@ impl World {
             }
             _ => "bad-op".into(),
         }
+    }
+
+    /// `run` / `runfail` / `runany`: spawned task `id` runs to completion (with a disk fault in force / although an
+    /// older task of its key is pending)
+    fn run_task(&mut self, id: u64, fault: Option<Fault>, any_order: bool) -> String {
+        let Some((li, pos)) = self.find_task(id) else { return "no-task".into() };
+        let kind = self.lanes[li].tasks[pos].1.clone();
+        if !any_order && !self.legal_run(id, &kind) {
+            return "illegal-choice".into();
+        }
+        if pos != 0 || self.lanes[li].frozen {
+            return "unsupported-schedule".into();
+        }
+        if fault.is_some() && (self.defer || !matches!(kind, TKind::Write { .. })) {
+            // faults are placed on write tasks, with a command channel that is drained at once
+            return "bad-op".into();
+        }
+        if any_order {
+            self.clean = false;
+            if let Some(k) = kind.key() {
+                self.taint.insert(k);
+                self.disk_taint.insert(k);
+            }
+        }
+        let queued_before = self.cmd_tx.max_capacity() - self.cmd_tx.capacity();
+        let cmds = self.step_lane_fault(li, fault);
+        let mut out = "ran".to_string();
+        if let (TKind::Write { k, v }, false) = (&kind, self.defer) {
+            // C01: a finished write reports its outcome — stored (and then the file is complete) or failed
+            let path = self.storage.join(rs::generate_filename(&self.keys[k].0));
+            let len = std::fs::metadata(&path).ok().filter(|m| m.is_file()).map(|m| m.len());
+            let adds = cmds.iter().filter(|c| matches!(c, LocalSwarmCmd::AddLocalRecordAsStored { .. })).count();
+            let fails = cmds.iter().filter(|c| matches!(c, LocalSwarmCmd::RemoveFailedLocalRecord { .. })).count();
+            if adds + fails != 1 {
+                self.fail("write-outcome-reported", format!("write task {id} of key {k} ran and sent {adds} AddLocalRecordAsStored and {fails} RemoveFailedLocalRecord (file length now {len:?}, a complete file has {})", file_len(*v)));
+            }
+            if adds == 1 && len != Some(file_len(*v) as u64) {
+                self.fail("stored-means-written", format!("write task {id} of key {k} reported the record as stored, its file has length {len:?} instead of {}", file_len(*v)));
+            }
+        }
+        if self.defer {
+            // the notification is either on the channel now or waits (in its sender task) for room
+            let queued = self.cmd_tx.max_capacity() - self.cmd_tx.capacity();
+            let blocked_now = self.lanes.iter().filter(|l| l.rt.metrics().num_alive_tasks() > l.tasks.len()).count();
+            if let TKind::Write { k, .. } = kind {
+                if queued > queued_before || blocked_now > self.blocked_senders {
+                    out.push_str(" add");
+                    self.awaiting.push_back((id, k));
+                }
+            }
+            self.blocked_senders = blocked_now;
+        }
+        if let (TKind::Delete { k }, false) = (&kind, any_order) {
+            // the file is gone: what a restart finds for this key is again what the harness expects
+            self.disk_taint.remove(k);
+        }
+        for c in cmds {
+            match &c {
+                LocalSwarmCmd::AddLocalRecordAsStored { key, .. } => {
+                    out.push_str(" add");
+                    let k = self.key_ids.get(key.as_ref()).copied().unwrap_or(u64::MAX);
+                    if !any_order {
+                        self.disk_taint.remove(&k);
+                    }
+                    self.notes.push((id, k, c));
+                }
+                LocalSwarmCmd::RemoveFailedLocalRecord { key } => {
+                    out.push_str(" fail");
+                    let k = self.key_ids.get(key.as_ref()).copied().unwrap_or(u64::MAX);
+                    // the file of k is now whatever the failed write left (nothing new / empty / a torn prefix; a
+                    // previous complete version is destroyed by the truncate): no expectation on it until a later
+                    // write or delete of k completes
+                    self.disk_taint.insert(k);
+                    self.clean = false;
+                    self.counts.push((format!("write-fault:{}", match fault { Some(Fault::Open) => "open", Some(Fault::Full(0)) => "full-0", Some(Fault::Full(_)) => "full-b", None => "none" }), 1));
+                    self.notes.push((id, k, c));
+                }
+                other => out.push_str(&format!(" ?{other:?}")),
+            }
+        }
+        out
+    }
+
+    /// `lifo k v rt [k v rt …]`: `put_verified` for each triple, back to back, from inside one task of a multi-thread
+    /// tokio runtime with a single worker — the way the node's `SwarmDriver::run` task calls it on the shipped
+    /// `Runtime::new()`. Every `spawn` made from a worker goes into that worker's LIFO slot and pushes the previous
+    /// occupant to the back of the local queue, so once the calling task yields the LAST spawned task runs first, then
+    /// the others in spawn order. Nothing is forced here: the order is tokio's. All spawned tasks complete before the
+    /// op returns; their notifications are pending (`deliver`).
+    fn lifo(&mut self, triples: &[&str]) -> String {
+        if self.use_cmd || self.defer || self.any_inflight() || !self.lanes.is_empty() {
+            return "bad-op".into();
+        }
+        let mut puts: Vec<(u64, u64, String, RecordType, Record)> = vec![];
+        for t in triples.chunks(3) {
+            let (Some(k), Ok(v)) = (t[0].parse::<u64>().ok().filter(|k| self.keys.contains_key(k)), t[1].parse::<u64>()) else { return "bad-op".into() };
+            let Some(rtype) = self.parse_rt(t[2]) else { return "bad-op".into() };
+            let bytes = self.learn_value(v);
+            let rec = Record { key: self.keys[&k].0.clone(), value: bytes, publisher: None, expires: None };
+            puts.push((k, v, t[2].to_string(), rtype, rec));
+        }
+        struct SendPtr(*mut NodeRecordStore);
+        // SAFETY: the store is only touched by the one task below while this thread waits for it
+        unsafe impl Send for SendPtr {}
+        let ptr = SendPtr(self.store_ptr);
+        let rt = tokio::runtime::Builder::new_multi_thread().worker_threads(1).build().expect("runtime");
+        let calls: Vec<(Record, RecordType)> = puts.iter().map(|p| (p.4.clone(), p.3.clone())).collect();
+        let before = self.listed();
+        let results: Vec<(bool, usize)> = rt.block_on(async move {
+            tokio::spawn(async move {
+                let ptr = ptr;
+                let store = unsafe { &mut *ptr.0 };
+                let h = tokio::runtime::Handle::current();
+                let mut out = vec![];
+                for (rec, rtype) in calls {
+                    let alive = h.metrics().num_alive_tasks();
+                    let r = rs::put_verified(store, rec, rtype);
+                    out.push((r.is_ok(), h.metrics().num_alive_tasks() - alive));
+                }
+                out
+            })
+            .await
+            .expect("lifo task")
+        });
+        // the worker now runs what was spawned, in its own order
+        let mut guard = 0;
+        while rt.metrics().num_alive_tasks() > 0 && guard < 2000 {
+            std::thread::sleep(std::time::Duration::from_millis(1));
+            guard += 1;
+        }
+        drop(rt);
+        let after = self.listed();
+        let mut outs = vec![];
+        let mut writes: Vec<(u64, u64, String)> = vec![]; // task id, key, rt
+        for ((k, v, rt_s, _, _), (ok, spawned)) in puts.iter().zip(results.iter()) {
+            self.puts.entry(*k).or_default().push(*v);
+            self.taint.insert(*k);
+            self.disk_taint.insert(*k);
+            let out = match (ok, spawned) {
+                (true, 0) => "dedup",
+                (true, _) => "ok",
+                (false, _) => "max",
+            };
+            if *ok && *spawned > 0 {
+                // the evictions' deletes come first, the write last
+                self.next_id += *spawned as u64 - 1;
+                writes.push((self.next_id, *k, rt_s.clone()));
+                self.next_id += 1;
+                self.last_event.insert(*k, Ev::Put(*v, rt_s.clone()));
+            }
+            outs.push(out);
+        }
+        for f in before.keys().filter(|x| !after.contains_key(x)) {
+            self.taint.insert(*f);
+            self.disk_taint.insert(*f);
+            self.last_event.insert(*f, Ev::Removed);
+        }
+        self.clean = false;
+        self.disciplined = false;
+        // notifications in arrival order; each belongs to the write of that key and type (tokio's order when ambiguous:
+        // last spawned first, then spawn order)
+        let mut order: Vec<(u64, u64, String)> = vec![];
+        if let Some(last) = writes.last().cloned() {
+            order.push(last);
+            order.extend(writes[..writes.len() - 1].iter().cloned());
+        }
+        while let Ok(c) = self.cmd_rx.try_recv() {
+            if let LocalSwarmCmd::AddLocalRecordAsStored { key, record_type } = &c {
+                let k = self.key_ids.get(key.as_ref()).copied().unwrap_or(u64::MAX);
+                let rts = self.rt_str(record_type);
+                let pos = order.iter().position(|w| w.1 == k && w.2 == rts).or_else(|| order.iter().position(|w| w.1 == k));
+                let id = match pos {
+                    Some(p) => order.remove(p).0,
+                    None => u64::MAX - self.notes.len() as u64,
+                };
+                self.notes.push((id, k, c));
+            } else {
+                return format!("{} ?{c:?}", outs.join(" "));
+            }
+        }
+        outs.join(" ")
     }
 
     fn crash(&mut self, tears: &[&str]) -> String {
@@ -1514,9 +1791,9 @@ impl World {
         format!("started v={}", self.vfile_str())
     }
 
-    /// disk-level taint: none at present (kept as a hook for future fault injection)
-    fn taint_disk(&self, _k: u64) -> bool {
-        false
+    /// disk-level taint: the file of k is what a failed (or out-of-order) write left, not what the last event says
+    fn taint_disk(&self, k: u64) -> bool {
+        self.disk_taint.contains(&k)
     }
 
     /// copy the directory, give key k's file the given content, open a store on the copy and compare with the baseline
@@ -1700,6 +1977,29 @@ fn gen_op(rng: &mut Rng, w: &World, g: &Gen) -> String {
             }
             return format!("run {}", w.next_id + rng.below(3));
         }
+        // a disk fault on a write task that could run now: the open fails, or only the first b bytes fit
+        let failed_pending = w.notes.iter().filter(|n| matches!(n.2, LocalSwarmCmd::RemoveFailedLocalRecord { .. })).count() as u32;
+        if !w.defer && rng.chance(1, 8) && !(g.mode == Mode::Cmd && w.removes_in_a_row + failed_pending >= 4) {
+            let writes: Vec<(u64, u64)> = w
+                .pending_tasks()
+                .iter()
+                .filter_map(|(id, t)| match t {
+                    TKind::Write { v, .. } if runnable.contains(id) => Some((*id, *v)),
+                    _ => None,
+                })
+                .collect();
+            if !writes.is_empty() {
+                let (id, v) = *rng.pick(&writes);
+                let len = file_len(v) as u64;
+                return match rng.below(6) {
+                    0 | 1 => format!("runfail {id} open"),
+                    2 => format!("runfail {id} full 0"),
+                    3 => format!("runfail {id} full {}", len.saturating_sub(1)),
+                    4 => format!("runfail {id} full {}", len + rng.below(2)),
+                    _ => format!("runfail {id} full {}", rng.below(len.max(1))),
+                };
+            }
+        }
         if !runnable.is_empty() {
             return format!("run {}", rng.pick(&runnable));
         }
@@ -1860,7 +2160,7 @@ impl Runner {
                     }
                 };
                 if res != "panic" && res != "bad-op" {
-                    let mutating = !ws.is_empty() && !matches!(ws[0], "bad-header" | "kadput" | "len" | "get" | "contains" | "addrs" | "ls" | "dist" | "far" | "cache" | "pending" | "metrics" | "key" | "vfile");
+                    let mutating = !ws.is_empty() && !matches!(ws[0], "bad-header" | "kadput" | "len" | "flen" | "get" | "contains" | "addrs" | "ls" | "dist" | "far" | "cache" | "pending" | "metrics" | "key" | "vfile");
                     if mutating && w.up && res != "down" {
                         let _ = catch_unwind(AssertUnwindSafe(|| {
                             w.check_views();
@@ -1872,8 +2172,8 @@ impl Runner {
             }
         };
         let op = rec.split_whitespace().next().unwrap_or("").to_string();
-        let class = if op == "run" { res.replace(' ', "-") } else { res.split_whitespace().next().unwrap_or("").to_string() };
-        if matches!(op.as_str(), "put" | "run" | "deliver" | "crash" | "get" | "start") {
+        let class = if op == "run" || op == "runfail" { res.replace(' ', "-") } else { res.split_whitespace().next().unwrap_or("").to_string() };
+        if matches!(op.as_str(), "put" | "run" | "runfail" | "deliver" | "crash" | "get" | "start") {
             let class = if class.parse::<u64>().is_ok() { "some".to_string() } else { class };
             self.out.count(&format!("{op}:{class}"));
         } else {
@@ -1971,9 +2271,12 @@ fn main() {
     let mode = match args.extra.get("mode").map(|s| s.as_str()) {
         Some("crash") => Mode::Crash,
         Some("cap") => Mode::Cap,
-        Some("cmd") => Mode::Cmd,
+        Some("cmd") | Some("cmdrestart") => Mode::Cmd,
         _ => Mode::Sched,
     };
+    // C02's restart family: the node is a real `SwarmDriver` built by `NetworkBuilder::build_node` — directory, seed and
+    // start-up check are build_node's own — stopped and rebuilt on the same root with the same keypair again and again
+    let restart_family = args.extra.get("mode").map(|s| s.as_str()) == Some("cmdrestart");
     let mut r = Runner { out: Out::new(&args.out), w: None, n_hist: 0 };
     let _ = SCRATCH.set(std::fs::canonicalize(&args.out).unwrap_or(args.out.clone()).join("scratch"));
     if let Some(p) = &args.replay {
@@ -1992,7 +2295,10 @@ fn main() {
         interrupted_start_corpus(&mut r);
         header_like_ciphertext_corpus(&mut r);
     }
-    if mode == Mode::Cmd {
+    write_fault_corpus(&mut r, mode == Mode::Cmd);
+    if restart_family {
+        same_identity_restart_corpus(&mut r);
+    } else if mode == Mode::Cmd {
         key_length_corpus(&mut r, true);
         notification_bursts(&mut r, &mut rng);
     } else {
@@ -2059,6 +2365,21 @@ fn main() {
                         crashes += 1;
                         continue;
                     }
+                    if restart_family && i > 1 && rng.chance(1, 7) {
+                        // settle some of what is pending, then stop and rebuild the node (build_node on the same root)
+                        for _ in 0..rng.below(4) {
+                            let run = r.world().runnable();
+                            let del = r.world().deliverable();
+                            if let Some(id) = run.first() {
+                                r.line(&format!("run {id}"));
+                            } else if let Some(id) = del.first() {
+                                r.line(&format!("deliver {id}"));
+                            }
+                        }
+                        r.line("crash");
+                        r.observe(true);
+                        continue;
+                    }
                     if (mode == Mode::Cap || mode == Mode::Cmd) && rng.chance(1, 60) {
                         r.line("crash");
                         r.observe(true);
@@ -2070,6 +2391,11 @@ fn main() {
                         script.push(l.clone());
                     }
                     r.line(&l);
+                }
+                if restart_family {
+                    r.settle_and_observe(&mut rng, false);
+                    r.line("crash");
+                    r.observe(true);
                 }
                 if mode == Mode::Crash {
                     if with_starts && rng.chance(1, 2) {
@@ -2134,6 +2460,86 @@ fn main() {
     let n = r.n_hist;
     r.out.count_n("histories", n);
     r.out.finish();
+}
+
+/// Corpus (C01 / C02 / C10): the disk-write ERROR path of `put_verified`. A record is stored and acknowledged; its
+/// overwrite fails (a) after 5 bytes — the file is a torn prefix, the previous complete version is gone, the cache serves
+/// the new value, a repeated put of it is answered Ok by the cache-equality early return, after the cache entry is evicted
+/// the key is listed but unreadable; then `RemoveFailedLocalRecord` is handled (real handler in cmd mode): not listed, not
+/// readable, the spawned delete removes the file; (b) at the open — the old file stays whole until the handler's delete;
+/// (c) with an empty file, followed by a stop and restart before the failure was handled: nothing torn or empty is served
+/// or indexed. Every line is compared with the model; the oracles of `run_task` / `deliver` apply.
+fn write_fault_corpus(r: &mut Runner, cmd: bool) {
+    let put = |k: u64, v: u64| if cmd { format!("cput {k} {v}") } else { format!("put {k} {v} c") };
+    for fault in ["full 5", "open", "full 0"] {
+        r.line(if cmd { "initcmd 4 1 1" } else { "init 4 1 1" });
+        r.line("key 1 @");
+        r.line("key 2 @");
+        let a = r.world().next_id;
+        r.line(&put(1, 3));
+        r.line(&format!("run {a}"));
+        r.line(&format!("deliver {a}"));
+        r.line("flen 1");
+        let b = r.world().next_id;
+        r.line(&put(1, 6));
+        r.line(&format!("runfail {b} {fault}"));
+        for l in ["pending", "flen 1", "ls", "get 1", "cache"] {
+            r.line(l);
+        }
+        r.line(&put(1, 6));
+        let c = r.world().next_id;
+        r.line(&put(2, 9));
+        for l in ["cache", "get 1", "contains 1", "addrs", "metrics 1"] {
+            r.line(l);
+        }
+        if fault == "full 0" {
+            r.line("crash");
+            for l in ["get 1", "contains 1", "addrs", "ls", "flen 1", "pending"] {
+                r.line(l);
+            }
+            continue;
+        }
+        let d = r.world().next_id;
+        r.line(&format!("deliver {b}"));
+        for l in ["get 1", "contains 1", "addrs", "ls", "pending", "metrics 1"] {
+            r.line(l);
+        }
+        r.line(&format!("run {d}"));
+        r.line("ls");
+        r.line("flen 1");
+        r.line(&format!("run {c}"));
+        r.line(&format!("deliver {c}"));
+        for l in ["get 1", "get 2", "addrs", "ls", "pending"] {
+            r.line(l);
+        }
+    }
+}
+
+/// Corpus (C02, restart family): "restarting with the same identity" through `NetworkBuilder::build_node` itself. Records of
+/// the three kinds the put handler accepts are stored and acknowledged; the node is dropped and rebuilt on the same root
+/// with the same keypair, twice; a record stored before the restart must be served after it (oracle clause
+/// restart-keeps-completed inside `crash`), listed with its type, and a record stored between the restarts as well.
+fn same_identity_restart_corpus(r: &mut Runner) {
+    r.line("initcmd 6 2 3");
+    for k in 1..=4 {
+        r.line(&format!("key {k} @"));
+    }
+    for (k, v) in [(1u64, 3u64), (2, 4), (3, 19)] {
+        let id = r.world().next_id;
+        r.line(&format!("cput {k} {v}"));
+        r.line(&format!("run {id}"));
+        r.line(&format!("deliver {id}"));
+    }
+    r.line("payment");
+    r.line("crash");
+    r.observe(true);
+    let id = r.world().next_id;
+    r.line("cput 4 6");
+    r.line(&format!("run {id}"));
+    // its notification is lost in the stop: the completed write is still served after the restart
+    r.line("crash");
+    r.observe(true);
+    r.line("vfile");
 }
 
 /// Corpus (C02): the start-up step outside the store. A node whose version file names its network id stores two
